@@ -21,7 +21,9 @@ RECURSIVE ReadLEB(_, _, _, _)
 ReadLEB(bs, pos, shift, acc) ==
   IF pos > Len(bs) \/ shift > 28 THEN <<-1, 0>>     \* truncated, or longer than the 5 bytes a 32-bit header can take (writers that back-patch a fixed slot emit those)
   ELSE LET b == bs[pos] IN
-       IF b < 128 THEN <<acc + b * Pow2(shift), pos + 1>>
+       \* the fifth byte may only carry the bits 28..30 (a header beyond 2^31 describes no page; it would also overflow TLC's integers)
+       IF shift = 28 /\ (b % 128) >= 8 THEN <<-1, 0>>
+       ELSE IF b < 128 THEN <<acc + b * Pow2(shift), pos + 1>>
        ELSE ReadLEB(bs, pos + 1, shift + 7, acc + (b - 128) * Pow2(shift))
 
 RECURSIVE UnpackGroups(_, _, _, _)
